@@ -1,7 +1,7 @@
 (* Property C06 -- reloads are precise and every one is reported exactly once.  Statements only. *)
 From Coq Require Import List String NArith ZArith Bool.
 From AM Require Import Rust.Ast Rust.Script Ref.RwCell Gen.Entry Ref.Load Ref.Sys Proofs.SysGrows Proofs.SysFrame
-  Proofs.SysStatic Proofs.SysReload Proofs.Dfs Proofs.RwPin Proofs.RwStep Tie.Entry Tie.CallGraph Gen.Deps Tie.Graph Gen.Paths Tie.Paths.
+  Proofs.SysStatic Proofs.SysReload Proofs.Dfs Proofs.RwPin Proofs.RwStep Tie.Entry Tie.CallGraph Gen.Deps Tie.Graph Gen.Paths Tie.Paths Proofs.SysGraph.
 Import ListNotations.
 Open Scope string_scope.
 
@@ -82,3 +82,28 @@ Theorem C06_code_pass_bookkeeping :
   runs_pass_on ["CacheKind"; "Local"] 0 HotReloadingData_use_static_ref = true /\
   fn_body HotReloadingData_clear_local_cache = [ESemi (EMethod (EField (EPath ["self"]) "to_reload") "clear" [])].
 Proof. exact paths_as_modelled. Qed.
+
+(* precision: whatever the history, every asset a pass reloads (an order the model accepts as the
+   pass of that state) depends -- through the dependencies recorded by the latest successful loads,
+   transitively -- on an entry that was reported changed; both for hot_reload and for the pass a
+   notification triggers in 'static mode *)
+Theorem C06_a_pass_reloads_only_dependents_of_changes : forall reloader ops order k,
+  let s := drain (fst (run (init_st reloader) ops)) in
+  legal_order s order = true -> In k order ->
+  exists r, In r (to_reload s) /\ tdep (graph s) (DepAsset k) r.
+Proof. exact hot_reload_is_precise. Qed.
+
+Theorem C06_a_notified_pass_reloads_only_dependents_of_changes : forall reloader ops es order k,
+  let s := take_events (drain (fst (run (init_st reloader) ops))) es in
+  legal_order s order = true -> In k order ->
+  exists r, In r (to_reload s) /\ tdep (graph s) (DepAsset k) r.
+Proof. exact notified_pass_is_precise. Qed.
+
+(* the premises are met: an edited file, a notification, and the pass that reloads its asset *)
+Example C06_precision_nonvacuous :
+  let s := drain (fst (run (init_st true)
+                         [OWrite "a" "x" (CBytes [52%N]); OLoad TI "a"; OWrite "a" "x" (CBytes [53%N]);
+                          ONotify [DFile "a" "x"] []])) in
+  legal_order s [(TI, "a")] = true /\ to_reload s = [DepFile "a" "x"] /\
+  deps_of (graph s) (DepAsset (TI, "a")) = [DepFile "a" "x"].
+Proof. vm_compute. repeat split. Qed.
